@@ -47,4 +47,46 @@ theorem netLabelling_iff_consistentB {α} [BEq α] [LawfulBEq α] (net : Net) (h
     · exact (sPosTable_getD net (hdrv i hi)).symm
     · intros; rfl
 
+/-! ## labellings by line index ↔ values at reader end points (any model circuit) -/
+
+/-- `w` (values arriving at reader end points) satisfies the name-level gate equation of every line -/
+def CircModel {α} (C : Circ) (io : List Nat) (z : α) (neg : α → α) (prim : String → α → α → α → α → α) (a : Nat → α)
+    (w : Ep → α) : Prop :=
+  ∀ p ∈ flatLines C, w p.2 = driveVal (flatLines C) (C.kindOf p.1) ((C.toNet io).sPos (C.nodeIdx p.1)) z neg prim a w p.1
+
+theorem circ_model_labelling {α} (C : Circ) (io : List Nat) (hres : ∀ p ∈ flatLines C, C.resolved p.1) (z : α) (neg : α → α)
+    (prim : String → α → α → α → α → α) (a : Nat → α) (w : Ep → α) (v : Nat → α)
+    (hv : ∀ j (hj : j < (flatLines C).length), v j = w (flatLines C)[j].2) (hm : CircModel C io z neg prim a w) :
+    NetLabelling (C.toNet io) z neg prim a v := by
+  intro i hi
+  rw [toNet_lines_size] at hi
+  rw [toNet_lineEq_agree C io _ z neg prim a v w hv i hi (hres _ (List.getElem_mem hi)), hv i hi]
+  exact hm _ (List.getElem_mem hi)
+
+theorem inLineOf_self' (L : List (Ep × Ep)) (hnd : (L.map (·.2)).Nodup) (i : Nat) (hi : i < L.length) :
+    inLineOf L L[i].2 = some i := by
+  apply lastWith_unique _ L i L[i] (List.getElem?_eq_getElem hi) (by simp)
+  intro i' x' hx' hp
+  have hi' : i' < L.length := (List.getElem?_eq_some_iff.mp hx').1
+  have hx'' : L[i'] = x' := (List.getElem?_eq_some_iff.mp hx').2
+  have h1 : (L.map (·.2))[i']'(by simpa using hi') = (L.map (·.2))[i]'(by simpa using hi) := by
+    simp only [List.getElem_map, hx'']
+    simpa using hp
+  exact (List.getElem_inj hnd).mp h1
+
+theorem circ_labelling_model {α} (C : Circ) (io : List Nat) (hres : ∀ p ∈ flatLines C, C.resolved p.1)
+    (hnd : ((flatLines C).map (·.2)).Nodup) (z : α) (neg : α → α) (prim : String → α → α → α → α → α) (a : Nat → α) (v : Nat → α)
+    (hc : NetLabelling (C.toNet io) z neg prim a v) :
+    CircModel C io z neg prim a (fun e => v ((inLineOf (flatLines C) e).getD 0)) ∧
+    ∀ j (hj : j < (flatLines C).length), v j = (fun e => v ((inLineOf (flatLines C) e).getD 0)) (flatLines C)[j].2 := by
+  have hv : ∀ j (hj : j < (flatLines C).length), v j = (fun e => v ((inLineOf (flatLines C) e).getD 0)) (flatLines C)[j].2 := by
+    intro j hj
+    show v j = v ((inLineOf (flatLines C) (flatLines C)[j].2).getD 0)
+    rw [inLineOf_self' _ hnd j hj]; rfl
+  refine ⟨?_, hv⟩
+  intro p hp
+  obtain ⟨i, hi, rfl⟩ := List.getElem_of_mem hp
+  rw [← hv i hi, hc i (by rw [toNet_lines_size]; exact hi)]
+  exact toNet_lineEq_agree C io _ z neg prim a v _ hv i hi (hres _ (List.getElem_mem hi))
+
 end KV.Netlist
